@@ -1,5 +1,6 @@
 import CueVerif.Driver.Proto
 import CueVerif.Model.Core
+import CueVerif.Model.CoreDisj
 /-!
 Line protocol of C01.
 
@@ -10,6 +11,13 @@ Line protocol of C01.
   declaration: `f<l>.` e (regular) | `f<l>?` e (optional) | `f<l>!` e (required) | `e` e (embedding)
 answer: `bot` | `T` | scalar token (normalised) | `{<l><t>:<val>,…}` followed by `c` if closed
   | `[<val>,…]`.
+
+`evald <tokens…>` — top-level disjunctions with default marks (Model/CoreDisj.lean):
+  `|` d d | `*` d (mark) | `&` d d | otherwise a disjunction-free expression as above
+answer: the non-bottom disjuncts rendered as above, duplicate-free (a disjunct is a default
+if any of its copies is), sorted as strings: none ⇒ `bot`; one ⇒ `<val>`; several ⇒
+`(<d>|<d>|…)` where a default disjunct is prefixed with `*` (only when the value carries
+marks at all; `(*1|2)&(1|*2)` ⇒ `(i1|i2)`).
 -/
 namespace CueVerif.Driver.C01
 open CueVerif CueVerif.Driver CueVerif.Core
@@ -166,12 +174,60 @@ def showVals : Vals → List String
   | .cons v rest => showVal v :: showVals rest
 end
 
+/-- total by fuel -/
+def parseD : Nat → List String → Option (DExpr × List String)
+  | 0, _ => none
+  | _, [] => none
+  | fuel + 1, tok :: rest =>
+    if tok == "|" then
+      match parseD fuel rest with
+      | some (a, rest1) =>
+        match parseD fuel rest1 with
+        | some (b, rest2) => some (.or a b, rest2)
+        | none => none
+      | none => none
+    else if tok == "&" then
+      match parseD fuel rest with
+      | some (a, rest1) =>
+        match parseD fuel rest1 with
+        | some (b, rest2) => some (.and a b, rest2)
+        | none => none
+      | none => none
+    else if tok == "*" then
+      match parseD fuel rest with
+      | some (a, rest1) => some (.mark a, rest1)
+      | none => none
+    else
+      match parseExpr (fuel + 1) (tok :: rest) with
+      | some (e, rest1) => some (.leaf e, rest1)
+      | none => none
+
+/-- insert into a list sorted by string, merging equal strings (flags or-ed) -/
+def insertD (s : String) (b : Bool) : List (String × Bool) → List (String × Bool)
+  | [] => [(s, b)]
+  | (t, c) :: rest =>
+    if s == t then (t, b || c) :: rest
+    else if s < t then (s, b) :: (t, c) :: rest
+    else (t, c) :: insertD s b rest
+
+def showD (x : DVal) : String :=
+  let ds := (x.items.filter (fun p => !p.1.isBot)).foldl
+    (fun acc p => insertD (showVal p.1) (x.hm && p.2) acc) []
+  match ds with
+  | [] => "bot"
+  | [(s, _)] => s
+  | _ => "(" ++ "|".intercalate (ds.map fun (s, b) => (if b then "*" else "") ++ s) ++ ")"
+
 /-- protocol handler for C01: words of one op line (after the property id) → answer -/
 def handle (ws : List String) : String :=
   match ws with
   | "eval" :: toks =>
     match parseExpr (2 * toks.length + 4) toks with
     | some (e, []) => showVal (eval e)
+    | _ => "bad-op"
+  | "evald" :: toks =>
+    match parseD (2 * toks.length + 4) toks with
+    | some (e, []) => showD (evalD e)
     | _ => "bad-op"
   | _ => "bad-op"
 
